@@ -126,6 +126,7 @@ def check(ctx):
         _registry_table(ctx, P, fi)
         _who_may_write(ctx, P)
         _constructor_registry(ctx, P)
+        _answers_follow_registry(ctx, P)
         return
     ctx.floor("R16.1", "registry stores in set_metrics", len(writes), 3)
 
@@ -248,6 +249,8 @@ def check(ctx):
     # ---------------- R16.5 constructor: Grid(..., metrics={...}) leaves the registry that the same entries, registered one
     # call at a time in mapping order, leave
     _constructor_registry(ctx, P)
+    _answers_follow_registry(ctx, P)
+
 
 def _who_may_write(ctx, P):
     # ---------------- R16.4 who may write: the two public entry points, and private helpers that only they (transitively) call
@@ -293,7 +296,7 @@ def _registry_model():
     xc, xg, yc, yg = dimsym("AX", "center"), dimsym("AX", "left"), dimsym("AY", "center"), dimsym("AY", "left")
     # dx2_*: the same axis set as dx_* but given on the horizontal plane (2-D grid spacing): dimensions a strict superset
     pool = {"a_cc": (yc, xc), "b_cc": (xc, yc), "a_gc": (yc, xg), "b_gc": (xg, yc), "a_cg": (yg, xc), "a_gg": (yg, xg), "dx_c": (xc,), "dx_g": (xg,),
-            "dx2_c": (yc, xc), "dx2_g": (yc, xg)}
+            "dx2_c": (yc, xc), "dx2_g": (yc, xg), "b_gg": (xg, yg)}
 
     def var(name, eff=()):
         return Obj("DataArray", name, eff, {"dims": pool[name], "name": name, "__isinstance__": ("DataArray",)})
@@ -343,6 +346,59 @@ def run_set_metrics(P, key, value, overwrite=False, registry=None):
         return dict(self=g, key=key, value=value, overwrite=overwrite)
 
     return Evaluator(P, method_models=models).run_paths(P.func("grid:Grid.set_metrics"), make)
+
+
+def _answers_follow_registry(ctx, P):
+    """R16.6: what get_metric returns depends only on the registry as it is *now*: a query, a registration that replaces (or
+    adds) a variable, and the same query again - the second answer is the one a Grid that has only ever seen the final registry
+    gives (a sequence of three calls interpreted on one modelled Grid; anything remembered from the first query shows)."""
+    from ..absint import Evaluator, Obj, Sym
+    from ..harness import driver
+    from ..xmodel import dimsym, make_da, make_grid
+
+    AX, AY = Sym("AX"), Sym("AY")
+    pool, var, models, _ref = _registry_model()
+    gm = P.func("grid:Grid.get_metric")
+    fi = driver("grid", "def _query_register_query(grid, arr, axes, key, value, overwrite):\n    first = grid.get_metric(arr, axes)\n    grid.set_metrics(key, value, overwrite=overwrite)\n    return grid.get_metric(arr, axes)\n")
+    ref = driver("grid", "def _register_query(grid, arr, axes, key, value, overwrite):\n    grid.set_metrics(key, value, overwrite=overwrite)\n    return grid.get_metric(arr, axes)\n")
+    xc, xg, yc, yg = dimsym("AX", "center"), dimsym("AX", "left"), dimsym("AY", "center"), dimsym("AY", "left")
+    kxy = frozenset({AX, AY})
+    cases = [
+        ("the variable at another position is replaced (interpolated answer)", {kxy: ["a_gg"]}, (yc, xc), "b_gg", True),
+        ("the variable at the array's position is replaced", {kxy: ["a_cc", "a_gg"]}, (yc, xc), "b_cc", True),
+        ("a variable at the array's position is added after an interpolated answer", {kxy: ["a_gg"]}, (yc, xc), "a_cc", False),
+    ]
+
+    def m_interp_like(ev, args, kw, node):
+        b = dict(zip(["self", "array", "like", "boundary", "fill_value"], args))
+        b.update(kw)
+        return Obj("DataArray", f"INTERP({b['array'].name})", (), {"dims": b["like"].attrs["dims"]})
+
+    def describe(v):
+        return v.name + "".join("*" + (e[1].name if isinstance(e[1], Obj) else repr(e[1])) for e in v.eff if e[0] in ("mult", "rmult")) if isinstance(v, Obj) else repr(v)
+
+    for name, reg, adims, newvar, overwrite in cases:
+        inst = f"query, register, query again: {name}"
+        res = []
+        try:
+            for f in (fi, ref):
+                ev = Evaluator(P, models={"grid:Grid.interp_like": m_interp_like, "warnings.warn": lambda ev_, a, k, n: None}, method_models=models)
+
+                def make():
+                    ds = Obj("Dataset", "grid_ds", (), {"variables": list(pool), "data_vars": list(pool)})
+                    g = make_grid(("AX", "AY"), ds=ds)
+                    g.attrs["_metrics"] = {k: [var(v, (("reset_coords", (("drop", True),)),)) for v in vs] for k, vs in reg.items()}
+                    return dict(grid=g, arr=make_da("arr", list(adims)), axes=(AX, AY), key=(AX, AY), value=newvar, overwrite=overwrite)
+
+                outs = ev.run_paths(f, make)
+                res.append(sorted({(o.kind, describe(o.value)) for o in outs}))
+        except Unmodelled as e:
+            ctx.unknown("R16.6", inst, str(e))
+            continue
+        if res[0] != res[1]:
+            ctx.report("R16.6", gm, inst, f"after the registration the repeated query answers {res[0]}; a Grid that has only seen the final registry answers {res[1]}: the answer depends on what was asked before")
+        else:
+            ctx.ok("R16.6", inst, f"second answer {res[1]} = the final registry's")
 
 
 def _constructor_registry(ctx, P):
